@@ -102,6 +102,7 @@ def c12_concurrent(rep, tier):
         elif a[2]:
             rep.violation("destinations added and removed by two threads at once: %s" % a[2],
                           {"engine": "conc", "module": "checks_conc_extra", "scenario": sc, "schedule": h["schedule"], "history": h["ev"]})
+    reentrant_destinations(rep, tier)
 
 
 def c06_once(rep, tier):
@@ -163,6 +164,7 @@ def c08_concurrent(rep, tier):
                           {"engine": "conc", "module": "checks_conc_extra", "scenario": sc, "schedule": h["schedule"], "history": h["ev"]})
     if hs:
         rep.sample({"fanout_scenario": hs[0][0]["threads"], "history": hs[0][1]["ev"][:12]})
+    reentrant_destinations(rep, tier)
 
 
 def c02_raced_ids(rep, tier):
@@ -188,5 +190,46 @@ def c02_raced_ids(rep, tier):
 
 
 def replay(prop, obj, path):
+    if obj.get("engine") == "reentrant":
+        here = os.path.dirname(os.path.abspath(__file__))
+        code = ("import sys, json; sys.path.insert(0, %r); import reentrant_exec as R; "
+                "json.dump(R.run(json.load(open(%r))['scenario']), sys.stdout)" % (here, path))
+        p = repo_python(["-c", code], timeout=300)
+        if p.returncode != 0:
+            raise MachineryFailure("reentrant replay failed: " + p.stderr.decode("utf-8", "replace")[-800:])
+        h = json.loads(p.stdout)
+        acc, _ = tlc_accepts("ReentrantA", "ReentrantA.cfg", [h])
+        print("scenario: %s\nerrors: %s\noffered (first 12 per destination): %s\nclause now: %r (recorded: %r)"
+              % (json.dumps(obj["scenario"]), h["errors"], [[d[0], d[1], d[2], d[3][:12]] for d in h["dests"]], acc[0][2], obj.get("clause")))
+        if acc[0][2]:
+            print("VIOLATION property=%s replay=%s" % (prop, path))
+            return 1
+        return 0
     import engine_conc
     return engine_conc.replay(prop, obj, path)
+
+
+def reentrant_destinations(rep, tier):
+    """Destinations that log / register / remove while they are being called (sequential): histories of the real Destinations object
+    judged by TLC with ReentrantA.tla.  Used by C08 and C12."""
+    here = os.path.dirname(os.path.abspath(__file__))
+    p = repo_python([os.path.join(here, "reentrant_exec.py")] + (["thorough"] if tier != "quick" else []), timeout=900)
+    if p.returncode != 0:
+        raise MachineryFailure("reentrant_exec failed: " + p.stderr.decode("utf-8", "replace")[-1500:])
+    hs = json.loads(p.stdout)
+    acc, st = tlc_accepts("ReentrantA", "ReentrantA.cfg", [{k: v for k, v in h.items() if k != "scenario"} for h in hs])
+    rep.cov["states"] += st
+    rep.cov["transitions"] += st
+    rep.cov["reentrant_destination_histories"] = len(hs)
+    seen = set()
+    for h, a in zip(hs, acc):
+        rep.cov["traces_validated_against_impl"] += 1
+        rep.count_case(["reentrant", h["scenario"]], True)
+        if a is None:
+            raise MachineryFailure("no verdict for a re-entrant destination history")
+        if a[2] and a[2] not in seen:
+            seen.add(a[2])
+            rep.violation("destinations calling back into the library (%d buffered messages, destinations %s): %s%s"
+                          % (h["n_pre"], json.dumps(h["scenario"]["dests"]), a[2], (" " + h["errors"][0]) if h["errors"] else ""),
+                          {"engine": "reentrant", "module": "checks_conc_extra", "scenario": h["scenario"], "clause": a[2], "errors": h["errors"],
+                           "offered_heads": [[d[0], d[1], d[2], d[3][:12]] for d in h["dests"]]})
